@@ -16,7 +16,8 @@ OBLIGATIONS = [
 N_QUICK, N_THOROUGH = 450, 8000
 RULE = ("seeded random DCOPs: 0-8 variables drawn from a pool of 14 names whose lexical order differs "
         "from their numeric/natural order, 0-9 constraints of arity 0-4 (matrix, python-function and "
-        "expression relations), isolated variables, constraints written with the very same Variable "
+        "expression and conditional relations, the same rule under two names), isolated variables, "
+        "plain and cost-table variables, constraints written with the very same Variable "
         "objects or with equal-but-distinct ones (created again / clone()), for each of the three graph modules; built "
         "through a DCOP (dicts set as the YAML loader does, or add_variable/add_constraint) or "
         "through the variables=/constraints= arguments (then also duplicate variables, duplicate "
@@ -56,7 +57,7 @@ CON_POOL = ["c1", "c10", "c2", "c3", "C4", "k", "diff_1", "diff_10", "w", "c_a",
 ALL_NAMES = sorted(set(VAR_POOL) | set(CON_POOL))
 NID = {n: i for i, n in enumerate(ALL_NAMES)}      # numeric order of ids == lexical order of names
 GRAPHS = ["hyper", "factor", "ordered"]
-RELKINDS = ["matrix", "func", "expr"]
+RELKINDS = ["matrix", "func", "expr"]      # + "cond" (ConditionalRelation), set by the generator
 
 
 def gen(rng, n, tier):
@@ -104,28 +105,48 @@ def gen(rng, n, tier):
         # how the constraints refer to a variable: the very same Variable object everywhere, or
         # equal-but-distinct objects (created again / clone()) as DCOP.add_constraint accepts
         inst = rng.choice(["shared", "fresh", "fresh", "clone"])
-        cases.append(dict(graph=graph, path=path, vars=vs, cons=cons, inst=inst))
+        # variables that carry a cost table (a re-created equal object lists the same costs in
+        # another insertion order); some constraints are conditional relations, possibly the same
+        # rule installed twice under two names
+        costvars = [v for v in dict.fromkeys(vs) if rng.random() < 0.4]
+        for c in cons:
+            if len(c[1]) >= 2 and c[2] != "matrix" and rng.random() < 0.2:
+                c[2] = "cond"
+        conds = [c for c in cons if c[2] == "cond"]
+        free = [n for n in CON_POOL if n not in [c[0] for c in cons]]
+        if conds and free and rng.random() < 0.5:
+            twin = rng.choice(conds)
+            cons.insert(rng.randint(0, len(cons)), [rng.choice(free), list(twin[1]), "cond"])
+        cases.append(dict(graph=graph, path=path, vars=vs, cons=cons, inst=inst, costvars=costvars))
     return cases
 
 
 # ------------------------------------------------------------------ implementation driver
 def _make(case):
     import numpy as np
-    from pydcop.dcop.objects import Variable, Domain
-    from pydcop.dcop.relations import NAryMatrixRelation, NAryFunctionRelation, constraint_from_str
+    from pydcop.dcop.objects import Variable, Domain, VariableWithCostDict
+    from pydcop.dcop.relations import (NAryMatrixRelation, NAryFunctionRelation, constraint_from_str,
+                                       ConditionalRelation)
     d = Domain("d", "", [0, 1])
     pool = {}
+    costvars = set(case.get("costvars", []))
+
+    def new(name, again=False):
+        if name in costvars:
+            # equal cost tables; the re-created object lists them in another insertion order
+            return VariableWithCostDict(name, d, {1: 3, 0: 2} if again else {0: 2, 1: 3})
+        return Variable(name, d)
 
     def var(name):
         if name not in pool:
-            pool[name] = Variable(name, d)
+            pool[name] = new(name)
         return pool[name]
     inst = case.get("inst", "shared")
 
     def use(name):
         """the Variable object a constraint is written with"""
         if inst == "fresh":
-            return Variable(name, d)
+            return new(name, again=True)
         if inst == "clone":
             return var(name).clone()
         return var(name)
@@ -133,7 +154,13 @@ def _make(case):
     cons = []
     for cn, scope, kind in case["cons"]:
         svars = [use(v) for v in scope]
-        if kind == "expr" and svars:
+        if kind == "cond" and len(svars) >= 2:
+            # rule: if <first variable> then <sum of the others>
+            # (sub-relations named after the scope: the same rule under two names has equal parts)
+            c = ConditionalRelation(constraint_from_str("if_" + scope[0], scope[0] + " == 1", svars[:1]),
+                                    constraint_from_str("then_" + "_".join(scope[1:]), " + ".join(scope[1:]), svars[1:]),
+                                    name=cn)
+        elif kind == "expr" and svars:
             c = constraint_from_str(cn, " + ".join(scope), svars)
         elif kind == "func" and svars:
             c = NAryFunctionRelation(lambda **kw: 0, svars, name=cn, f_kwargs=True)
